@@ -174,7 +174,9 @@ impl FraudProof for BadEncodingFraudProof {
         let mut nmt = Nmt::default();
 
         for (n, share) in rebuilt_shares.iter().enumerate() {
-            let ns = if n < ods_width {
+            // Only the first quadrant is committed under the shares' own namespaces,
+            // rows and columns of the other quadrants hold nothing but parity shares.
+            let ns = if n < ods_width && usize::from(self.index) < ods_width {
                 // Reconstructed data isn't guaranteed to carry a valid namespace,
                 // so take its raw id, the same way the committed tree was built.
                 // safety: length must be correct
